@@ -10,12 +10,49 @@ From V Require Import Model.CallTable Model.Dispatch Model.DispatchPinned Gen.Ca
 Import ListNotations.
 Open Scope string_scope.
 
-Definition T : table :=
-  mkTable signatures callsites attr_assigns forwarders components class_bases aliases workbench_env.
+(* The lemmas are proved for an arbitrary table satisfying the boolean checks (so that the
+   kernel never has to unfold the generated table during conversion); the checks themselves
+   are evaluated on the generated table at the end of the file.                          *)
+Definition expected_entries : list string := [
+  "parsing.parse"; "parsing.dict_to_stix2"; "parsing.parse_observable";
+  "memory.MemoryStore.__init__"; "memory.MemorySource.__init__"; "memory.MemorySink.__init__";
+  "memory.MemoryStore.add"; "memory.MemorySink.add";
+  "memory.MemoryStore.load_from_file"; "memory.MemorySource.load_from_file";
+  "filesystem.FileSystemSource.get"; "filesystem.FileSystemSource.all_versions"; "filesystem.FileSystemSource.query";
+  "filesystem.FileSystemStore.get"; "filesystem.FileSystemStore.all_versions"; "filesystem.FileSystemStore.query";
+  "filesystem.FileSystemSink.add"; "filesystem.FileSystemStore.add";
+  "environment.Environment.parse"; "workbench.parse"; "workbench.save"].
 
-(* ---- every non-TAXII entry point ---- *)
+Definition taxii_reparse : list string :=
+  ["taxii.TAXIICollectionSource.all_versions"; "taxii.TAXIICollectionStore.all_versions"].
+
+Definition version_or_none (t : state) : bool :=
+  sym_eqb (got t "version") (SArg "version") || sym_eqb (got t "version") (SConst "None").
+Definition taxii_weak_ok (E : entry) (t : state) : bool := version_or_none t && interop_ok E t && allow_ok E t.
+
+Definition taxii_weak_check (T : table) (E : entry) : bool :=
+  entry_closed T E && state_mem (e_init E) (map fst (reach T E))
+  && forallb (fun x => wellformed (fst x) && (negb (is_terminal (fst x)) || taxii_weak_ok E (fst x))) (reach T E).
+
+Definition in_scope_check (T : table) : bool := forallb (fun E => taxii_entry E || entry_check T E) (entries T).
+Definition covered_check (T : table) : bool :=
+  forallb (fun n => existsb (fun E => String.eqb (e_name E) n && negb (taxii_entry E)) (entries T)) expected_entries
+  && forallb (fun E => existsb (fun x => is_terminal (fst x)) (reach T E)) (entries T).
+Definition taxii_check (T : table) : bool :=
+  forallb (fun E => negb (taxii_entry E) ||
+                    (if smem (e_name E) taxii_reparse then taxii_weak_check T E && negb (entry_good T E)
+                     else entry_check T E)) (entries T).
+Definition site_check (T : table) : bool := parser_core_ok T && id_sites_ok T && embedded_sites_ok T.
+
+Section AnyTable.
+Variable T : table.
+Hypothesis in_scope_all0 : in_scope_check T = true.
+Hypothesis covered_all0 : covered_check T = true.
+Hypothesis taxii_all0 : taxii_check T = true.
+Hypothesis site_checks_all0 : site_check T = true.
+
 Lemma in_scope_all : forallb (fun E => taxii_entry E || entry_check T E) (entries T) = true.
-Proof. vm_compute. reflexivity. Qed.
+Proof. exact in_scope_all0. Qed.
 
 Lemma in_scope_chain : forall E, In E (entries T) -> taxii_entry E = false ->
   forall s, reachable T (e_init E) s ->
@@ -62,22 +99,10 @@ Proof.
 Qed.
 
 (* ---- which entry points exist, and that each one reaches the parser ---- *)
-Definition expected_entries : list string := [
-  "parsing.parse"; "parsing.dict_to_stix2"; "parsing.parse_observable";
-  "memory.MemoryStore.__init__"; "memory.MemorySource.__init__"; "memory.MemorySink.__init__";
-  "memory.MemoryStore.add"; "memory.MemorySink.add";
-  "memory.MemoryStore.load_from_file"; "memory.MemorySource.load_from_file";
-  "filesystem.FileSystemSource.get"; "filesystem.FileSystemSource.all_versions"; "filesystem.FileSystemSource.query";
-  "filesystem.FileSystemStore.get"; "filesystem.FileSystemStore.all_versions"; "filesystem.FileSystemStore.query";
-  "filesystem.FileSystemSink.add"; "filesystem.FileSystemStore.add";
-  "environment.Environment.parse"; "workbench.parse"; "workbench.save"].
-
-Definition has_terminal (E : entry) : bool := existsb (fun x => is_terminal (fst x)) (reach T E).
-
 Lemma covered_all :
   forallb (fun n => existsb (fun E => String.eqb (e_name E) n && negb (taxii_entry E)) (entries T)) expected_entries = true
-  /\ forallb has_terminal (entries T) = true.
-Proof. vm_compute. split; reflexivity. Qed.
+  /\ forallb (fun E => existsb (fun x => is_terminal (fst x)) (reach T E)) (entries T) = true.
+Proof. apply andb_true_iff. exact covered_all0. Qed.
 
 Lemma entry_points_covered_pf :
   (forall n, In n expected_entries -> exists E, In E (entries T) /\ e_name E = n /\ taxii_entry E = false)
@@ -87,26 +112,16 @@ Proof.
   - intros n Hn. rewrite forallb_forall in H1. specialize (H1 n Hn).
     apply existsb_exists in H1 as [E [HE Hc]]. apply andb_true_iff in Hc as [Hc1 Hc2].
     exists E. repeat split; auto. apply String.eqb_eq in Hc1. exact Hc1. apply negb_true_iff. exact Hc2.
-  - intros E HE. rewrite forallb_forall in H2. specialize (H2 E HE). unfold has_terminal in H2.
+  - intros E HE. rewrite forallb_forall in H2. specialize (H2 E HE). simpl in H2.
     apply existsb_exists in H2 as [x [Hx Ht]]. exists (fst x). split; auto. apply reach_reachable. exact Hx.
 Qed.
 
 (* ---- the TAXII source / sink / store (in the table, not drivable here) ---- *)
-Definition taxii_reparse : list string :=
-  ["taxii.TAXIICollectionSource.all_versions"; "taxii.TAXIICollectionStore.all_versions"].
-
-Definition version_or_none (t : state) : bool :=
-  sym_eqb (got t "version") (SArg "version") || sym_eqb (got t "version") (SConst "None").
-Definition taxii_weak_ok (E : entry) (t : state) : bool := version_or_none t && interop_ok E t && allow_ok E t.
-Definition taxii_weak_check (E : entry) : bool :=
-  entry_closed T E && state_mem (e_init E) (map fst (reach T E))
-  && forallb (fun x => wellformed (fst x) && (negb (is_terminal (fst x)) || taxii_weak_ok E (fst x))) (reach T E).
-
 Lemma taxii_all :
   forallb (fun E => negb (taxii_entry E) ||
-                    (if smem (e_name E) taxii_reparse then taxii_weak_check E && negb (entry_good T E)
+                    (if smem (e_name E) taxii_reparse then taxii_weak_check T E && negb (entry_good T E)
                      else entry_check T E)) (entries T) = true.
-Proof. vm_compute. reflexivity. Qed.
+Proof. exact taxii_all0. Qed.
 
 Lemma taxii_version_forwarded_pf : forall E, In E (entries T) -> taxii_entry E = true ->
   forall s, reachable T (e_init E) s -> is_terminal s = true ->
@@ -159,7 +174,10 @@ Qed.
 
 (* ---- the parser's own use of its parameters, and the id check ---- *)
 Lemma site_checks_all : parser_core_ok T = true /\ id_sites_ok T = true /\ embedded_sites_ok T = true.
-Proof. vm_compute. repeat split. Qed.
+Proof.
+  pose proof site_checks_all0 as H. unfold site_check in H.
+  apply andb_true_iff in H as [H H3]. apply andb_true_iff in H as [H1 H2]. auto.
+Qed.
 
 Lemma is_param_eq : forall p e, is_param p e = true -> e = FromParam p.
 Proof. intros p e H. destruct e; try discriminate. simpl in H. apply String.eqb_eq in H. congruence. Qed.
@@ -237,6 +255,21 @@ Proof.
   - rewrite (terminal_ok_interop E s H). unfold interop_expected.
     destruct (smem "interoperability" (e_own E)); reflexivity.
 Qed.
+
+End AnyTable.
+
+(* ---- the generated table: the four checks, each one kernel evaluation ---- *)
+Definition Tgen : table :=
+  mkTable signatures callsites attr_assigns forwarders components class_bases aliases workbench_env.
+
+Lemma gen_in_scope : in_scope_check Tgen = true.
+Proof. vm_compute. reflexivity. Qed.
+Lemma gen_covered : covered_check Tgen = true.
+Proof. vm_compute. reflexivity. Qed.
+Lemma gen_taxii : taxii_check Tgen = true.
+Proof. vm_compute. reflexivity. Qed.
+Lemma gen_sites : site_check Tgen = true.
+Proof. vm_compute. reflexivity. Qed.
 
 (* ---- the defective variant (frozen excerpt of the pinned table) ---- *)
 Definition pinned_witness : option (entry * (state * list string)) :=
